@@ -919,7 +919,7 @@ def cf_enumerated():
     nested = ["while (true) { while (true) { if (b > 1) { return 20; } b += 1; if (b == 1) { break; } } write('o'); }",
               "while (true) { for (int i = 0; i < 3; i += 1) { if (i == a) { break; } if (i == b) { continue; } write('i'); } b += 1; if (b > 2) { return 21; } }",
               "for (;;) { while (b < 2) { b += 1; if (a > 0) { break; } } if (b >= 2) { return 22; } b += 1; }",
-              "while (true) { while (true) { while (true) { if (a > 0) { break; } a += 1; } b += 1; if (b > 1) { break; } } if (b > 2) { return 23; } }",
+              "while (true) { while (true) { while (true) { if (a > 0) { break; } a = 1; } b += 1; if (b > 1) { break; } } if (b > 2) { return 23; } }",
               "while (b < 2) { while (true) { b += 1; if (b > 0) { break; } } write('x'); } return 24;",
               "for (int i = 0; i < 2; i += 1) { for (int j = 0; j < 2; j += 1) { if (j == b) { continue; } if (i == a) { break; } write('a' + i * 2 + j); } write('|'); } return 26;",
               "while (true) { for (int i = 0; i < 2; i += 1) { if (i == a) { continue; } write('c'); } while (true) { b += 1; break; } if (b > 1) { return 27; } }"]
